@@ -17,11 +17,37 @@ package transport
 //@   modifies nothing
 //@   ensures err == nil ==> r != nil && fresh(r) && wfMsg(r)
 //@   ensures err != nil ==> r == nil
-//@ func (t *ReuseConnTransport) ExchangeContext(ctx context.Context, m []byte) (r *dnsmsg.Msg, err error)
+//@ func (t *ReuseConnTransport) asyncDial(ctx context.Context) (c *reusableConn, err error)
+//@   trusted
+//@   requires t != nil
+//@   modifies nothing
+//@   ensures (err == nil) == (c != nil)
+//@   ensures c != nil ==> c.c != nil && c.idleTimer != nil && c.serving
+//@ func joinErr(errs []error) (err error)
 //@   trusted
 //@   modifies nothing
-//@   ensures err == nil ==> r != nil && fresh(r) && wfMsg(r)
-//@   ensures err != nil ==> r == nil
+//@   ensures len(errs) > 0 ==> err != nil
+//@ func ctxIsDone(ctx context.Context) (done bool)
+//@   trusted
+//@   modifies nothing
+
+// ExchangeContext: at most 7 attempts (a reused connection that fails is retried at most 6 times, a freshly dialled
+// one never), each on a connection this call owns exclusively, with the same framed payload; the framed payload
+// is a private copy of the query.
+//@ func (t *ReuseConnTransport) ExchangeContext(ctx context.Context, m []byte) (r *dnsmsg.Msg, err error)
+//@   props C06 C20 C01
+//@   requires t != nil && ctx != nil && rtInv(t) && t.logger != nil
+//@   ghost nTry int = 0
+//@   oncall exchangeConnCtx?: nTry = nTry + 1
+//@   modifies obj(t.idleConns), obj(t.conns), field(transport.reusableConn.serving)
+//@   ensures [C06:bounded-retries] nTry <= 7
+//@   callsite exchangeConnCtx?: [C06:same-framed-query-every-attempt] len(arg2) == len(m) + 2 && BE16(arg2, 0) == uint16(len(m)) && bytesEq(arg2, 2, m, 0, len(m))
+//@   callsite ReleaseBuf?: [C20:not-released-while-a-goroutine-may-still-write-it] !attr(lent, arg0)
+//@   loop 1:
+//@     modifies obj(t.idleConns), obj(t.conns), field(transport.reusableConn.serving), obj(errs)
+//@     invariant rtInv(t) && 0 <= retry && retry <= 6 && nTry == retry
+//@     invariant loopFresh(errs) || sameObj(errs, loopOld(errs))
+//@     decreases 7 - retry
 
 // ---- pipeline_conn.go (C05) ---------------------------------------------------------------------
 // Monitor invariant of pipelineConn.m (sync.RWMutex is assumed to give mutual exclusion, so each
@@ -268,13 +294,17 @@ package transport
 // still in flight).
 //@ func (t *ReuseConnTransport) exchangeConnCtx(ctx context.Context, payload []byte, c *reusableConn) (r *dnsmsg.Msg, err error)
 //@   props C06
-//@   requires t != nil && c != nil && ctx != nil && c.c != nil && c.idleTimer != nil && t.idleConns != nil && t.conns != nil && !sameObj(t.idleConns, t.conns) && c.serving && t.logger != nil
+//@   requires t != nil && c != nil && ctx != nil && c.c != nil && c.idleTimer != nil && t.idleConns != nil && t.conns != nil && !sameObj(t.idleConns, t.conns) && c.serving && t.logger != nil && len(payload) > 0
 //@   ghost nRel int = 0
 //@   ghost nGo int = 0
 //@   oncall releaseConn?: nRel = nRel + 1
 //@   oncall go: nGo = nGo + 1
-//@   modifies *
+//@   markcall go: attr(lent, payload)
+//@   modifies nothing
 //@   ensures [C06:caller-never-releases] nRel == 0 && nGo == 1
+// the goroutine that performs the exchange keeps reading the payload even if this call returns early on ctx.Done():
+//@   ensures [C20:payload-is-with-the-exchange-goroutine] attr(lent, payload)
+//@   callsite go: [C20:payload-is-with-the-exchange-goroutine] captures(payload)
 
 //@ closure ReuseConnTransport.exchangeConnCtx$1
 //@   props C06
